@@ -48,6 +48,21 @@ theorem recovery_default_response :
       ["_1.JSON(http.StatusInternalServerError, map[string]any{ \"error\": \"Internal server error\", \"code\": \"INTERNAL_ERROR\", })"] := by
   decide
 
+/-- `captureStack` (`Recovery.captureStack`): a negative limit is clamped to 0 before it is used as a slice bound
+    (K10e fix); the stack is captured only under `logger != nil` and `stackTrace` (`Recovery.reachesHandler`), between
+    `c.Abort()` and the response handler; every option assigns exactly its own field (`Recovery.applyOpt`) -/
+theorem recovery_capture_and_options :
+    recovery_captureStack =
+      ["_1 := debug.Stack()", "if _2 < 0 {", "_2 = 0", "}", "if len(_1) > _2 {", "return _1[:_2]", "}", "return _1"] ∧
+    recovery_handlePanic_stack =
+      ["_1.Abort()", "if _2.logger != nil {",
+       "_2.logger.Error(\"panic recovered\", \"error\", fmt.Sprintf(\"%v\", _3), \"method\", _1.Request.Method, \"path\", _1.Request.URL.Path, )",
+       "if _2.stackTrace {", "_4 := captureStack(_2.stackSize)", "}", "}", "if _2.handler != nil {", "_2.handler(_1, _3)", "}"] ∧
+    recovery_opt_WithoutLogging = ["_1.logger = nil"] ∧ recovery_opt_WithLogger = ["_1.logger = _2"] ∧
+    recovery_opt_WithHandler = ["_1.handler = _2"] ∧ recovery_opt_WithStackTrace = ["_1.stackTrace = _2"] ∧
+    recovery_opt_WithStackSize = ["_1.stackSize = _2"] ∧ recovery_opt_WithPrettyStack = ["_1.prettyStack = &_2"] := by
+  decide
+
 /-! ### the app installs recovery first (assumption "recovery is the first handler of the chain") -/
 
 /-- `applyDefaultMiddleware` ends with `r.Use(recovery.New(…))` -/
